@@ -112,6 +112,13 @@ class Ctx:
             yield
         except WatchdogTimeout:
             self.inconclusive_because(f"watchdog fired after {seconds}s on case {json.dumps(case, default=str)[:300]}")
+            try:        # keep the whole case for diagnosis (git-ignored scratch)
+                d = os.path.join(os.path.dirname(os.path.dirname(os.path.abspath(__file__))), '.scratch', 'watchdog')
+                os.makedirs(d, exist_ok=True)
+                with open(os.path.join(d, f'{self.prop}_{self.tier}_{self.seed}_{self.shard}.json'), 'w') as f:
+                    json.dump({'property': self.prop, 'case': jsonable(case)}, f)
+            except Exception:  # noqa: BLE001
+                pass
         finally:
             signal.setitimer(signal.ITIMER_REAL, 0)
             signal.signal(signal.SIGALRM, old)
